@@ -558,13 +558,14 @@ func main() {
 		{{0, 1.3}, {4, 1.3}, {2, 4}, {0, 1.3}},
 		{{0, 0}, {2, 0}, {2, 4}, {0, 4}, {0, 0}},
 		{{1.5, 1.25}, {2.5, 1.25}, {2.5, 2.25}, {1.5, 2.25}, {1.5, 1.25}},
+		{{0, 0}, {4, 0}, {4, 4}, {0, 4}, {0, 0}}, // around the whole box: only a hole's boundary can cross the box
 	}
 	holes := []orb.Ring{
 		{{1.55, 1.5}, {1.55, 1.75}, {1.75, 1.75}, {1.75, 1.5}, {1.55, 1.5}}, // inside the box
 		{{1, 1.35}, {1, 1.75}, {1.5, 1.75}, {1.5, 1.35}, {1, 1.35}},         // crosses the left edge of the general box
 		{{1.625, 1.3}, {1.625, 1.4}, {1.9, 1.4}, {1.9, 1.3}, {1.625, 1.3}},  // inside
 	}
-	r.Explore("polygons", "4 outer rings x every subset of 3 holes that lie inside the outer ring x both orientations, general-position box: region = outer minus holes, holes that stay inside are attached to the polygon that contains them; multi-polygon with a second polygon", mc.Opts{MaxDev: -1}, func(c *mc.Ctx) {
+	r.Explore("polygons", "5 outer rings (one around the whole box, taken with the hole that crosses the box) x every subset of 3 holes that lie inside the outer ring x both orientations, general-position box: region = outer minus holes, holes that stay inside are attached to the polygon that contains them; multi-polygon with a second polygon", mc.Opts{MaxDev: -1}, func(c *mc.Ctx) {
 		oi := c.Choose(len(outers))
 		outer := outers[oi].Clone()
 		o := orb.CCW
@@ -596,6 +597,18 @@ func main() {
 			}
 			poly = append(poly, hh)
 			used = append(used, h)
+		}
+		if oi == 4 {
+			crossing := false
+			for _, h := range used {
+				if &h[0] == &holes[1][0] {
+					crossing = true
+				}
+			}
+			if !crossing {
+				c.Skip() // a ring around the whole box with nothing crossing it is outside the statement
+				return
+			}
 		}
 		inOrig := func(q qpt) bool {
 			if !inFloat(outers[oi], q.f) {
@@ -636,7 +649,13 @@ func main() {
 			}
 		}
 		second := orb.Ring{{2.6, 2.3}, {4, 2.3}, {4, 4}, {2.6, 4}, {2.6, 2.3}}
-		if oi != 3 {
+		if oi == 4 {
+			// the same polygon as the only member of a multi-polygon, and through the generic entry point
+			if gm := smartclip.MultiPolygon(gbox, orb.MultiPolygon{poly.Clone()}, o); !refgeom.Equal(gm, got) {
+				c.Failf("multi:single-member", "smartclip.MultiPolygon of the polygon alone = %v, smartclip.Polygon gives %v | %s", gm, got, desc)
+			}
+		}
+		if oi < 3 {
 			if o == orb.CW {
 				second.Reverse()
 			}
